@@ -11,8 +11,8 @@ def run(ctx):
                                 # DHP.tla (retired array of blocks, extension guard blocks, record reuse, help_scan adoption, destructor); refuted: seeded change C03
                                 # (empty() without the list-head test -> leak) and the defect repaired by 5021641 (stale list_tail_ -> write past the block)
                                 dict(module_rel="smr/DHPMC.tla", cfg_rel="smr/DHP_q.cfg" if ctx.quick() else "smr/DHP_t.cfg", workers=4, timeout=3000),
-                                dict(module_rel="smr/DHPMC.tla", cfg_rel="smr/DHP_bad_EmptyNoHead.cfg", workers=3, expect_violation="NoLeak"),
-                                dict(module_rel="smr/DHPMC.tla", cfg_rel="smr/DHP_bad_StaleTail.cfg", workers=3, expect_violation="NoOverflow")], par=5)
+                                dict(module_rel="smr/DHPMC.tla", cfg_rel="smr/DHP_bad_EmptyNoHead.cfg", workers=3, expect_violation="NoLeak")] +
+                               ([] if ctx.quick() else [dict(module_rel="smr/DHPMC.tla", cfg_rel="smr/DHP_bad_StaleTail.cfg", workers=4, expect_violation="NoOverflow", timeout=3000)]), par=5)
     n = 1 if ctx.quick() else 6
     k1 = [v for v in S.HP_VARIANTS if "_k1" in v]
     k2 = [v for v in S.HP_VARIANTS if "_k1" not in v] + ["dhp_k4", "dhp_k2"]
@@ -28,7 +28,7 @@ def run(ctx):
     # (op noattach) and retires at once (seeded change C03b: the adopted record released before its retired pointers were copied)
     ADOPT = ["prot:0:0,signal,await:3,deref:0|await:1,swap:0,detach,signal|await:2,detach,signal|noattach,await:2,attach,retn:2,detach",
              "prot:0:0,prot:1:1,signal,await:3,deref:0,deref:1|await:1,swap:0,swap:1,detach,signal|await:2,retn:1,detach,signal|noattach,await:2,attach,retn:3,detach"]
-    jobs += make_jobs(ctx, "smr", ["hp_inplace_k2", "hp_classic_k2", "hp_inplace_k2_r16", "dhp_k4"], ADOPT, strat=[("random", 600 if ctx.quick() else 8000, 0), ("pct", 300 if ctx.quick() else 4000, 0)])
+    jobs += make_jobs(ctx, "smr", ["hp_inplace_k2", "hp_classic_k2", "hp_inplace_k2_r16", "dhp_k4"], ADOPT, strat=[("random", 300 if ctx.quick() else 8000, 0), ("pct", 150 if ctx.quick() else 4000, 0)])
     # a thread detaches with < 256 surviving retired objects in a two-block array, its record is reused and filled up again with guarded objects
     jobs += make_jobs(ctx, "smr", ["dhp_k4"], ["holdn:300,signal,await:2,relsome:100,signal,await:4,holdn:100,signal,await:6|await:1,retpool,signal,await:3,detach,attach,signal,await:5,retpool,signal"],
                       strat=[("pct", 4 if ctx.quick() else 40, 0)], extra_of=lambda v: ["--max-steps", "3000000"])
